@@ -126,6 +126,15 @@ func orphans(r *ev.Run) {
 							ag.Keyring.Add(agent.AddedKey{PrivateKey: o1.Priv, Certificate: gen.MakeCert(gen.CertSpec{Key: o1, KeyID: "expired@example", ValidAfter: now - 7200, ValidBefore: now - 3600})})
 							ag.Keyring.Add(agent.AddedKey{PrivateKey: o2.Priv, Certificate: gen.MakeCert(gen.CertSpec{Key: o2, KeyID: "premature@example", ValidAfter: now + 3600, ValidBefore: now + 7200})})
 						}
+						// while the underlying agent lists nothing (emptied or locked) or lacks the key, another hardware certificate over the
+						// same key is offered and refused: that refusal is no reason to forget the one already accepted
+						if keyKind == 8 || shp.keep == 1 {
+							other := mk(k, gen.YSSHCAKeyID(gen.KeyIDSpec{HW: true, FF: true, Touch: 3, TransID: "eeeeeeeeee", Prins: []string{"u"}}))
+							if err := s.AddHardCert(other, "second"); err == nil && (shp.name == "emptied" || shp.name == "locked" || shp.keep == -1) {
+								r.Violation(c, "hardware-cert-without-held-key-accepted:"+shp.name, "", rec)
+								return
+							}
+						}
 						// the first operation that runs the filter
 						listedNow, listedKnown := false, false
 						switch first {
